@@ -160,8 +160,22 @@ func genC05(r *Rng, n int, tier string, emit func(Case)) {
 			inner := nTag(name, false, nil, nText("body"))
 			inner["ablocks"] = []interface{}{"attributes"}
 			doc := []interface{}{nMixin("m", nil, inner), nCall("m", nil, attrs)}
-			emit(Case{"kind": "render", "oracle": "attrs", "doc": doc, "spec_doc": []interface{}{tag}, "data": data, "bucket": "mixin-call", "nattrs": len(attrs),
-				"what": "mixin call: " + what})
+			cs := Case{"kind": "render", "oracle": "attrs", "doc": doc, "spec_doc": []interface{}{tag}, "data": data, "bucket": "mixin-call", "nattrs": len(attrs)}
+			if rr.Bool() && tag["name"] != "input" {
+				// the same call again (and again), then a plain tag that reads the data arrays: a call builds its `attributes` object
+				// from the values, it never writes into them (class=cls class='x' must not grow `cls`)
+				after := nTag("p", false, []interface{}{nAttr("class", eId("cls"), true), nAttr("data-x", eCall(eDot(eId("clsMixed"), "join"), eStr("|")), true)}, nText("after"))
+				rep := rr.Range(2, 3)
+				for q := 1; q < rep; q++ {
+					doc = append(doc, nCall("m", nil, attrs))
+				}
+				doc = append(doc, after)
+				cs["doc"], cs["repeat"], cs["bucket"] = doc, rep, "mixin-call-repeated"
+				cs["after_attrs"] = []interface{}{[]interface{}{"class", "a b"}, []interface{}{"data-x", "x|false||y"}}
+				what = strconv.Itoa(rep) + " times, then a plain tag: " + what
+			}
+			cs["what"] = "mixin call: " + what
+			emit(cs)
 			continue
 		}
 		emit(Case{"kind": "render", "oracle": "attrs", "doc": []interface{}{tag}, "data": data, "bucket": "tag", "nattrs": len(attrs), "what": what})
